@@ -132,6 +132,7 @@ class Exporter:
         self.ix_t = {}      # id -> [(num, len, ent|None)]
         self.ix_o = {}      # id -> (scope_count, [(num,len,ent)])
         self.ids = [256, 257, 258, 300, 1000, 65535]
+        self.kind_reuse = False     # may an id be redefined from template to options template and back?
 
     # -- V9 templates
     def v9_field(self):
@@ -230,9 +231,16 @@ class Exporter:
                 desc = []
                 for _ in range(m):
                     tid, fs = self.v9_template()
+                    if tid in self.v9_o:
+                        if self.kind_reuse:
+                            del self.v9_o[tid]        # the new definition supersedes the options template
+                        elif self.conformant:
+                            continue
                     body += self.v9_template_record(tid, fs)
                     self.v9_t[tid] = fs
                     desc.append((tid, fs))
+                if not desc:
+                    continue
                 out.append((self.flowset(0, body, pad=rng.choice([0, 0, 0, 1, 2, 3]) if not self.conformant else 0), ("T", desc)))
             elif k < 0.4:
                 body = b""
@@ -241,8 +249,11 @@ class Exporter:
                     tid, scope, opts = self.v9_otemplate()
                     # V9 looks ids up in the options map first: keep the two id spaces apart in
                     # conformant streams (RFC 3954: an id names one template)
-                    if self.conformant and tid in self.v9_t:
-                        continue
+                    if tid in self.v9_t:
+                        if self.kind_reuse:
+                            del self.v9_t[tid]
+                        elif self.conformant:
+                            continue
                     self.v9_o[tid] = (scope, opts)
                     body += self.v9_otemplate_record(tid, scope, opts)
                     desc.append((tid, scope, opts))
@@ -352,15 +363,21 @@ class Exporter:
             have_o = list(self.ix_o)
             if k < 0.3 or not (have_t or have_o):
                 tid, fs = self.ix_template()
-                if self.conformant and tid in self.ix_o:
-                    continue
+                if tid in self.ix_o:
+                    if self.kind_reuse:
+                        del self.ix_o[tid]
+                    elif self.conformant:
+                        continue
                 self.ix_t[tid] = fs
                 body = be(tid, 2) + be(len(fs), 2) + b"".join(self.ix_fspec(f) for f in fs)
                 out.append((self.ix_set(2, body, pad=0 if self.conformant else rng.choice([0, 0, 1, 2, 3])), ("T", [(tid, fs)])))
             elif k < 0.4:
                 tid, fs = self.ix_template()
-                if self.conformant and tid in self.ix_t:
-                    continue
+                if tid in self.ix_t:
+                    if self.kind_reuse:
+                        del self.ix_t[tid]
+                    elif self.conformant:
+                        continue
                 sc = rng.randrange(0, len(fs) + 1) if fs else 0
                 self.ix_o[tid] = (sc, fs)
                 body = be(tid, 2) + be(len(fs), 2) + be(sc, 2) + b"".join(self.ix_fspec(f) for f in fs)
@@ -454,11 +471,12 @@ class Case:
 
 # ---------------------------------------------------------------- case streams
 
-def conformant_stream(rng, tables, versions=(5, 7, 9, 10), npk=None, parsers=1, allowed=None, few_ids=False):
+def conformant_stream(rng, tables, versions=(5, 7, 9, 10), npk=None, parsers=1, allowed=None, few_ids=False, kind_reuse=False):
     ex = [Exporter(rng, tables, True) for _ in range(parsers)]
     if few_ids:
         for e in ex:
             e.ids = [256, 257]
+            e.kind_reuse = kind_reuse
     npk = npk if npk is not None else rng.choice([1, 2, 3, 4, 6, 8])
     ops = []
     pk = []
